@@ -43,7 +43,7 @@ func optInt(v int, ok bool) string {
 }
 
 // caseLimit is the watchdog for one case (the longest ones, 130 000 operations, take a few hundredths of a second).
-const caseLimit = 10 * time.Second
+const caseLimit = 30 * time.Second
 
 type published struct {
 	mu  sync.Mutex
